@@ -33,6 +33,10 @@ def exemptions(ctx):
         out = []
         for ex in EXEMPT:
             f = ctx.prog.functions.get(ex["func"])
+            if f is None and ex["func"].count(".") == 1:
+                # a module-level function moved to another module of the package keeps its exemption
+                cands = [g for g in ctx.prog.all_functions() if g.cls is None and g.name == ex["func"].split(".")[1]]
+                f = cands[0] if len(cands) == 1 else None
             if f is None:
                 continue
             e = dict(ex)
@@ -159,6 +163,20 @@ C19_ALLOWED = {"TypeError", "ValueError", "MalformedConditionLikeSpec", "Malform
 RULE_FIELDS = ("spec['path']", "spec['condition']", "schema_dat['rules']")
 
 
+def _is_spec_error(prog, exc):
+    """The library's own spec errors: the Malformed* classes of valida/errors.py and their subclasses;
+    likewise subclasses of TypeError / ValueError defined in the package."""
+    c = next((k for k in prog.classes.values() if k.name == exc and k.is_exception()), None)
+    if c is None:
+        return False
+    for k in c.mro:
+        if k.name in C19_ALLOWED or (k.module.name == "errors" and k.name.startswith("Malformed")):
+            return True
+        if any(b in ("TypeError", "ValueError") for b in k.ext_bases):
+            return True
+    return False
+
+
 def rule_c19_raises(ctx):
     from .purity import parse_jobs
     merged, labels = parse_jobs(ctx)
@@ -182,7 +200,7 @@ def rule_c19_raises(ctx):
             r.ok()
             continue
         w, entry = escaping[k]
-        if exc in C19_ALLOWED:
+        if exc in C19_ALLOWED or _is_spec_error(ctx.prog, exc):
             inst["verdict"] = "escapes as an allowed spec error"
             r.ok()
             continue
